@@ -95,8 +95,28 @@ def h_fragmentizer(X, is_text, max_units, max_frags):
     if same:
         # same total length => the original fragmentation is reused
         X.reach("same-length")
-        X.check([len(e) for e in enc] == L or (k == 0 and len(enc) == 1), "C28/fragmentizer/lengths-not-kept",
-                f"same length, but piece lengths {[len(e) for e in enc]} != original {L}")
+        if k == 0:
+            X.check(len(enc) == 1, "C28/fragmentizer/lengths-not-kept", f"empty message without fragments emitted {len(enc)} pieces")
+        else:
+            X.check(len(enc) == k, "C28/fragmentizer/lengths-not-kept", f"same length, {k} original fragments but {len(enc)} pieces")
+            # piece boundaries == original boundaries; for text a boundary that falls inside a code point may move to either end
+            # of that code point (a TEXT fragment handed to wsproto as str cannot end inside a code point)
+            cps = {0}
+            if is_text:
+                pos = 0
+                for ch in text:
+                    pos += len(ch.encode())
+                    cps.add(pos)
+            got_b = orig_b = 0
+            for i in range(k):
+                got_b += len(enc[i])
+                orig_b += L[i]
+                if not is_text or orig_b in cps:
+                    ok = got_b == orig_b
+                else:
+                    ok = got_b in (max(c for c in cps if c < orig_b), min(c for c in cps if c > orig_b))
+                    X.reach("boundary-inside-codepoint")
+                X.check(ok, "C28/fragmentizer/lengths-not-kept", f"same length, but piece lengths {[len(e) for e in enc]} != original {L}")
     else:
         X.reach("resized")
         X.check(all(len(e) <= F + 3 for e in enc), "C28/fragmentizer/oversized-piece", f"piece lengths {[len(e) for e in enc]} exceed FRAGMENT_SIZE={F}")
@@ -168,7 +188,7 @@ class _World:
             if act == "same-length":
                 m.content = _TEXT_SAMELEN.encode() if m.is_text else bytes(reversed(m.content))
             elif act == "resize":
-                m.content = (("€x\U0001F600é" + m.text) if m.is_text else (b"\xfe\xff" * 3 + m.content))
+                m.content = (("€x\U0001F600é" + m.text).encode() if m.is_text else (b"\xfe\xff" * 3 + m.content))
             elif act == "drop":
                 m.drop()
         return True
@@ -326,14 +346,17 @@ def _inject(X, w):
     n0 = len(w.flow.websocket.messages)
     w.d.feed(wl.WebSocketMessageInjected(w.flow, websocket.WebSocketMessage(Opcode.TEXT if is_text else Opcode.BINARY, to_server, content)))
     msgs = w.flow.websocket.messages
+    if len(msgs) == n0 + 1 and is_text and msgs[-1].content != content and b"\xef\xbf\xbd" in msgs[-1].content:
+        X.fail(_KEY_SPLIT, f"injected text {content.decode()!r} is recorded (and relayed) as {msgs[-1].content.decode()!r}: the injection path slices it into "
+                           f"FRAGMENT_SIZE={w.F}-byte pieces and decodes each with errors='replace'")
     X.check(len(msgs) == n0 + 1 and msgs[-1].injected and msgs[-1].content == content and msgs[-1].from_client == to_server,
             "C28/e2e/inject-recorded", f"injected message not recorded once as such: {msgs[n0:]}")
     X.reach("injected")
 
 
-def _ping(X, w):
+def _ping(X, w, lean=False):
     side = X.choose("from", ["client", "server"])
-    pong = X.boolean("pong")
+    pong = False if lean else X.boolean("pong")
     payload = b"p\x00\xff"
     ev = we.Pong(payload) if pong else we.Ping(payload)
     other = "server" if side == "client" else "client"
@@ -349,13 +372,17 @@ def _ping(X, w):
 _CLOSES = [(1000, ""), (1000, "bye"), (1001, "going é"), (3000, "x" * 20), (4999, ""), (1005, "")]
 
 
-def _close(X, w):
+def _close(X, w, lean=False):
     side = X.choose("from", ["client", "server"])
-    code, reason = X.choose("close", _CLOSES)
+    code, reason = X.choose("close", [_CLOSES[2], _CLOSES[5]] if lean else _CLOSES)
     other = "server" if side == "client" else "client"
     n0 = len(w.rx_other[other])
-    data = w.peers[side].send(we.CloseConnection(code, reason or None))
-    _feed_segmented(X, w, side, data, ("whole", "first-byte"))
+    if code == 1005:
+        # "no status code": an empty close frame, written by hand (wsproto's sender turns 1005 into 1000)
+        data = b"\x88\x80\x00\x00\x00\x00" if side == "client" else b"\x88\x00"
+    else:
+        data = w.peers[side].send(we.CloseConnection(code, reason or None))
+    _feed_segmented(X, w, side, data, ("whole",) if lean else ("whole", "first-byte"))
     w.pump()
     ws = w.flow.websocket
     X.check(ws.close_code == code and (ws.close_reason or "") == reason, "C28/e2e/close-recorded",
@@ -394,8 +421,9 @@ def h_single(X):
         wl.Fragmentizer.FRAGMENT_SIZE = saved
 
 
-def h_sequence(X, K):
-    """schedules of K steps over messages in both directions, injections, ping/pong, close"""
+def h_sequence(X, K, lean=False):
+    """schedules of K steps over messages in both directions, injections, ping/pong, close
+    (lean: smaller per-step menus so that one more step stays exhaustible)"""
     F = 5
     saved = wl.Fragmentizer.FRAGMENT_SIZE
     wl.Fragmentizer.FRAGMENT_SIZE = F
@@ -407,14 +435,14 @@ def h_sequence(X, K):
             kinds = ["message", "inject", "ping", "close"] if n_msgs < 3 else ["inject", "ping", "close"]
             s = X.choose("step", kinds)
             if s == "message":
-                _send_message(X, w, ("single", "two"), ("none", "resize", "drop"), ("whole", "middle"))
+                _send_message(X, w, ("single", "two"), ("none", "resize", "drop"), ("whole",) if lean else ("whole", "middle"))
                 n_msgs += 1
             elif s == "inject":
                 _inject(X, w)
             elif s == "ping":
-                _ping(X, w)
+                _ping(X, w, lean)
             else:
-                _close(X, w)
+                _close(X, w, lean)
                 w.judge(f"step {step} (close)")
                 break
             w.pump()
@@ -427,7 +455,7 @@ def h_sequence(X, K):
 
 
 def obligations(tier):
-    units, frags, kseq = (3, 3, 2) if tier == "quick" else (5, 3, 3)
+    units, frags, kseq = (3, 3, 2) if tier == "quick" else (4, 3, 3)
     return [
         Symx("fragmentizer-binary", lambda X: h_fragmentizer(X, False, 8, frags),
              bounds=f"FRAGMENT_SIZE in 1..5, binary content of 0..8 bytes, 0..{frags} original fragments with symbolic lengths in [0,16] (every composition on the same-length branch)",
@@ -441,8 +469,8 @@ def obligations(tier):
                     "then {nothing, ping|pong, close with 6 code/reason pairs}",
              encoded=ENCODED, must_reach=["end", "message", "text", "addon-same-length", "addon-resize", "addon-drop", "deflate", "ping-pong", "closed", "boundaries-compared",
                                           "split-inside-codepoint", "many-segments"], parallel_depth=3),
-        Symx("e2e-sequence", lambda X: h_sequence(X, kseq),
+        Symx("e2e-sequence", lambda X: h_sequence(X, kseq, lean=kseq > 2),
              bounds=f"every schedule of <= {kseq} steps (<= 3 messages) over {{message (direction x type x 1|2 frames x addon none/resize/drop x segmentation), injected message (direction x type x "
-                    f"short/long), ping|pong, close}}; FRAGMENT_SIZE=5",
+                    f"short/long), ping|pong, close}}; FRAGMENT_SIZE=5" + ("; lean menus: no TCP segmentation choice, ping only, 2 close code/reason pairs" if kseq > 2 else ""),
              encoded=ENCODED, must_reach=["end", "message", "injected", "ping-pong", "closed", "two-steps"], parallel_depth=3),
     ]
